@@ -71,6 +71,29 @@ CHECKS.update({
             "block-size/address edits and reloads; each transition is replayed and contents, block contents, block "
             "addresses are compared; contains_offset/contains_address answers are judged by TLC.", LOOK),
 })
+CHECKS.update({
+    "C07": ("model_checking",
+            "AuxWire.tla defines Enc/Dec for the whole type grammar from the documented wire format; TLC proves "
+            "Dec(Enc(v)) = v with full consumption on every generated (type, value) and judges the codec: the value "
+            "Python decodes from its own bytes and from the spec's bytes must equal v (floats as bit patterns, sets and "
+            "mappings without order), streams must be consumed exactly, and UUID/Offset entries must come back as Node "
+            "objects iff attached. Inputs: every leaf type x boundary values, every container over every leaf, every "
+            "variant alternative, seeded random nestings.",
+            "TLA+ spec AuxWire.tla + AuxWireJudge.tla: TLC evaluates the wire format on recorded codec inputs/outputs"),
+    "C08": ("model_checking",
+            "Same inputs as C07 judged on bytes: TLC requires every byte string the Python encoder produced to decode "
+            "under the spec's Dec completely to v and to re-encode to itself with the spec's length (for order-free "
+            "types: exact equality with Enc); the specification acts as the independent writer whose bytes Python must "
+            "decode; the repository's Java codecs decode Python's and the spec's bytes and Python decodes Java's bytes, "
+            "all judged by TLC.",
+            "TLA+ spec AuxWire.tla + AuxWireJudge.tla: TLC-computed expected bytes vs Python and Java codecs"),
+    "C15": ("model_checking",
+            "TypeName.tla gives the grammar three ways (generative set, recursive descent, push-down recogniser); TLC "
+            "checks they agree on every string up to length 7 (9 thorough) over {a,b,<,>,','} and prints verdict and "
+            "tree for each, which _parse_type must reproduce (TypeNameError iff rejected); long/deep/unicode names and "
+            "their mutations are parsed by the code and judged by TLC.",
+            "TLA+ spec TypeName.tla: exhaustive string enumeration by TLC + TLC-judged recorded parses"),
+})
 NOT_YET = {}
 
 
